@@ -7,7 +7,7 @@ PROP = "C02"
 LEAN_MODULES = ["ShootVerif.Props.C02", "ShootVerif.Props.C02Facts"]
 USES_FACTS = True
 MANIFEST = dict(
-    text="Lean 4 theorems over a model of fields.go/new.go (sequential shadow marking, name-keyed nameMap, newParamsList, newBodyRec) and of the emitted keyed literal: for EVERY struct tree in WF, reading NewT(args) at any leaf path gives exactly the argument of the i-th eligible leaf / the def= value / zero (C02_value_at_path), parameters are the eligible leaves in depth-first order (C02_param_order), shadow flags are order-independent (C02_shadow_closed_form), newBodyRec re-parses the flat list into the nested literal (C02_body_reparse), pointer embeds are allocated; the collision suffixes of makeNew are covered in general (fresh_not_mem, assignParams_nodup: parameter names are pairwise distinct for ANY field names; C02_value_at_path_general / C02_param_order_general over WFg, where only the FIELD names of the visible leaves must differ); at the level of the doc comment the default IS the text after `def=` for every value text without `;` and newline, also when other directives follow (C02_def_directive_value, C02_def_directive_then, over the directive recognisers tied to the regexps of fields.go by the directive leg). Model tied to the code by generating random struct packages, running the rebuilt `shoot new` (single- and multi-type runs with a generic companion type processed first; selection modes -type=, -file=, -type=*; structs embedding a pointer to themselves), compiling NewT and calling it with sentinel arguments, reading every leaf back by reflection and comparing with model and spec.",
+    text="Lean 4 theorems over a model of fields.go/new.go (sequential shadow marking, name-keyed nameMap, newParamsList, newBodyRec) and of the emitted keyed literal: for EVERY struct tree in WF, reading NewT(args) at any leaf path gives exactly the argument of the i-th eligible leaf / the def= value / zero (C02_value_at_path), parameters are the eligible leaves in depth-first order (C02_param_order), each declared with its leaf's printed type (C02_param_types, C02_param_types_general), shadow flags are order-independent (C02_shadow_closed_form), newBodyRec re-parses the flat list into the nested literal (C02_body_reparse), pointer embeds are allocated; the collision suffixes of makeNew are covered in general (fresh_not_mem, assignParams_nodup: parameter names are pairwise distinct for ANY field names; C02_value_at_path_general / C02_param_order_general over WFg, where only the FIELD names of the visible leaves must differ); at the level of the doc comment the default IS the text after `def=` for every value text without `;` and newline, also when other directives follow (C02_def_directive_value, C02_def_directive_then, over the directive recognisers tied to the regexps of fields.go by the directive leg). Model tied to the code by generating random struct packages, running the rebuilt `shoot new` (single- and multi-type runs with a generic companion type processed first; selection modes -type=, -file=, -type=*; structs embedding a pointer to themselves), compiling NewT and calling it with sentinel arguments, reading every leaf back by reflection and comparing with model and spec.",
     note="Lean kernel + standard axioms; model validated (not verified) against the code by the correspondence; go/types facts (field lists of embedded structs), the Go compiler's meaning of keyed literals and selector promotion are validated by execution; bool arguments are only told apart from zero; type-parameter constraints are checked by compilation of an instantiation only.",
     technique="Lean 4 proof (induction over struct trees: flatten/shadow closed form, recursive-descent re-parse, path lookup, index correspondence) + differential correspondence with executed generated code",
     design="5/C02")
